@@ -66,6 +66,10 @@ func (s *tokenScanner) compileTokens(lastOpCode OpCode) (ret Expr, err error) {
 }
 
 func (s *tokenScanner) getNextExpr() (Expr, error) {
+	if s.done() {
+		return nil, ErrUnexpectedEnd
+	}
+
 	token := s.pop()
 	switch token.t {
 	case typeLiteral, typeGroup:
